@@ -172,8 +172,11 @@ dev_impl! {
             if sum != vals.len() {
                 return Err(format!("incidence {}: segment sizes add up to {} but {} values", name, sum, vals.len()));
             }
-            if ic.sources.target != sum + 1 {
-                return Err(format!("incidence {}: size-map codomain {} but sum+1 = {}", name, ic.sources.target, sum + 1));
+            // C05 states "segment sizes add up to the length of the incidence arrays"; that the size map's
+            // codomain is exactly sum+1 is C08's statement (not claimed here): only its being a legal
+            // finite function (every size below the codomain) is required
+            if let Some(k) = sizes.iter().find(|k| **k >= ic.sources.target) {
+                return Err(format!("incidence {}: segment size {} not below the size-map codomain {}", name, k, ic.sources.target));
             }
             if ic.values.target != n {
                 return Err(format!("incidence {}: values codomain {} but {} nodes", name, ic.values.target, n));
